@@ -166,11 +166,11 @@ func valueFromBuf(r *bufio.Reader) (value, error) {
 		if err != nil {
 			return nil, err
 		}
-		p, _ := r.Peek(int(k))
-		if len(p) < int(k) {
-			return nil, io.ErrUnexpectedEOF
+		p := make([]byte, k)
+		_, err = io.ReadFull(r, p)
+		if err == io.EOF {
+			err = io.ErrUnexpectedEOF
 		}
-		_, err = r.Discard(len(p))
 		return string(p), err
 
 	case typeBOOL:
